@@ -108,3 +108,7 @@ zero_pad = Contract(
     stated=["zero_pad yields exactly left pad items, the sequence, then right pad items"],
 )
 zero_pad.ghost_const = {"lp", "rp"}
+
+
+from pyvc.bounded import bounded_check
+blocks.extra_checks = [bounded_check("bounded.c08", "blocks-zero_pad-on-containers", ["C08"])]
